@@ -56,6 +56,25 @@ func pkcs7decode(buf []byte, _ int) []byte {
 	return buf[:n]
 }
 
+// pkcs7valid reports whether buf ends in a well-formed PKCS7 padding for the
+// given block size, so that pkcs7decode can safely strip it.
+func pkcs7valid(buf []byte, blockSize int) bool {
+	n := len(buf)
+	if n == 0 || n%blockSize != 0 {
+		return false
+	}
+	pad := int(buf[n-1])
+	if pad < 1 || pad > blockSize || pad > n {
+		return false
+	}
+	for _, b := range buf[n-pad:] {
+		if int(b) != pad {
+			return false
+		}
+	}
+	return true
+}
+
 // encryptOverhead returns the maximum possible overhead of encryption by version
 func encryptOverhead(vsn encryptionVersion) int {
 	switch vsn {
@@ -191,6 +210,9 @@ func decryptPayload(keys [][]byte, msg []byte, data []byte) ([]byte, error) {
 		if err == nil {
 			// Remove the PKCS7 padding for vsn 0
 			if vsn == 0 {
+				if !pkcs7valid(plain, aes.BlockSize) {
+					return nil, fmt.Errorf("invalid PKCS7 padding")
+				}
 				return pkcs7decode(plain, aes.BlockSize), nil
 			} else {
 				return plain, nil
